@@ -400,7 +400,9 @@ def build_and_run(work, tu, cfg, seed, compile_timeout, case_timeout, keep=False
 
 def run_matrix(work, tus, cfgs, seed, compile_timeout=900, case_timeout=60, log=None):
     """All (TU, cfg) pairs on a memory-aware pool. Returns list of events."""
-    jobs = [(tu, cfg) for cfg in cfgs for tu in tus if (not tu.only_cfgs or fnmatch.fnmatchcase(cfg.name, tu.only_cfgs)) and (not cfg.only_tus or fnmatch.fnmatchcase(tu.name, cfg.only_tus))]
+    def _m(name, pat):
+        return not pat or any(fnmatch.fnmatchcase(name, p) for p in ([pat] if isinstance(pat, str) else pat))
+    jobs = [(tu, cfg) for cfg in cfgs for tu in tus if _m(cfg.name, tu.only_cfgs) and _m(tu.name, cfg.only_tus)]
     # heavy TUs first
     jobs.sort(key=lambda j: (-j[0].weight, 0 if j[1].san else 1))     # long poles (heavy TUs, sanitizer builds) first
     events = []
